@@ -122,6 +122,14 @@ def generate(tier, seed, ctx):
         if method == "Monte-Carlo" and k % 13 == 0:
             n = rng.choice([1, 2, 3])
         R.append("c14.call " + call_str(method, rng.randrange(2 ** 32), lo, hi, n, fid, params_of(rng, fid, lo, hi)))
+    # --- budgets: exact multiples of block sizes (2^k, 1000, 4096) and odd ones - constants exactly, polynomials within 6 sigma
+    budgets = [1024, 2048, 4096, 8192, 65536, 3 * 4096, 1000, 1500, 12345, 99999] + ([16384, 32768, 2000, 3000, 10000, 4095, 4097] if th else [])
+    for n in budgets:
+        for method in METHODS:
+            d = rng.randint(1, 4)
+            lo, hi = region_of(rng, d, rng.choice([0, 1]))
+            R.append("c14.call " + call_str(method, rng.randrange(2 ** 32), lo, hi, n, 0, [rng.choice([2.5, -1.0, 1.0])]))
+            R.append("c14.call " + call_str(method, rng.randrange(2 ** 32), lo, hi, n, rng.choice([1, 5]), []))
     # --- integrands that vanish at every sample point (f == 0; a narrow peak no sample hits): memory safety, result ~ 0
     R.append("c14.call Vegas 1 2 4 0x0p+0 0x0p+0 0x1p+0 0x1p+0 1000 0 1 0x0p+0")      # pre-fix replay of e78e51e
     for method in METHODS:
@@ -270,6 +278,16 @@ def plain_mc_sigma(fid, lo, hi, p, n):
     for i in range(d):
         vol *= hi[i] - lo[i]
     I = exact_integral(fid, lo, hi, p)
+    if fid in (1, 5):
+        # sum of independent coordinates: Var = sum of the coordinate variances (uniform on [a,b])
+        var = 0.0
+        for a, b in zip(lo, hi):
+            if fid == 1:
+                var += (b - a) ** 2 / 12.0
+            else:
+                m2 = (b ** 3 - a ** 3) / (3 * (b - a)); m4 = (b ** 5 - a ** 5) / (5 * (b - a))
+                var += max(m4 - m2 * m2, 0.0)
+        return vol * math.sqrt(var / n)
     if fid == 3:
         I2 = exact_integral(3, lo, hi, [2 * a for a in p])
     elif fid == 4:
@@ -381,6 +399,12 @@ def compare(rq, impl, model, ctx):
         return [f]
     out = []
     ex = exact_integral(c["fid"], lo, hi, c["p"])
+    if c["method"] == "Monte-Carlo" and c["fid"] in (1, 5) and c["n"] >= 30:
+        # plain Monte Carlo on a polynomial: the estimator's standard error is known in closed form, every budget
+        sg = plain_mc_sigma(c["fid"], lo, hi, c["p"], c["n"])
+        if abs(v - ex) > 6 * sg + 1e-12 * (abs(ex) + Fraction(fmax_bound(c["fid"], lo, hi, c["p"]))):
+            return [fail("prop", name + ": estimate farther than six (plain Monte-Carlo) standard errors from the exact value",
+                         "value %r exact %r sigma %.3g budget %d" % (v, ex, sg, c["n"]))]
     if c["fid"] in (3, 4) and c["n"] >= HDR_MIN_CALLS:
         # accuracy clause on the huge-dynamic-range family: within six plain-Monte-Carlo standard errors (generous:
         # the stratified methods must not be worse than plain sampling)
